@@ -188,7 +188,7 @@ func (e *Engine) obligation(c *term.T, label string, auto bool) {
 		e.sample(label, c, "solver")
 	case solver.Sat:
 		st.Violated++
-		m = e.minimizeInts(term.BNot(c), m)
+		m = e.minimizeVars(term.BNot(c), m, e.opt.MinimizeWords)
 		e.res.Cex = append(e.res.Cex, Cex{Label: label, Model: m, Decisions: append([]uint64(nil), e.decisions...), Kind: "assert"})
 		if e.opt.StopAtFirst {
 			panic(pathEnd{"violation"})
@@ -252,29 +252,48 @@ func (e *Engine) anfUnderPC(c *term.T) bool {
 // counts) one after the other by binary search with the solver, so that the
 // native replay gets the smallest failing sizes.
 func (e *Engine) minimizeInts(neg *term.T, m map[string]uint64) map[string]uint64 {
+	return e.minimizeVars(neg, m, false)
+}
+
+// minimizeVars shrinks integer inputs of a model one after the other by binary
+// search with the solver: mathematical integers always, 64-bit machine words
+// (as unsigned values) when withWords is set.  Used so that native replays get
+// sizes they can allocate.
+func (e *Engine) minimizeVars(neg *term.T, m map[string]uint64, withWords bool) map[string]uint64 {
 	var ints []*term.T
 	for _, v := range e.res.vars {
-		if v.IsInt() {
+		if v.IsInt() || (withWords && v.W == 64) {
 			ints = append(ints, v)
 		}
 	}
-	if len(ints) == 0 || len(ints) > 4 {
+	if len(ints) == 0 || len(ints) > 8 {
 		return m
+	}
+	le := func(v *term.T, k int64) *term.T {
+		if v.IsInt() {
+			return term.BAnd(term.ILe(v, term.IntConst(k)), term.ILe(term.IntConst(0), v))
+		}
+		return term.Ule(v, term.Const(64, uint64(k)))
+	}
+	eq := func(v *term.T, k int64) *term.T {
+		if v.IsInt() {
+			return term.Eq(v, term.IntConst(k))
+		}
+		return term.Eq(v, term.Const(64, uint64(k)))
 	}
 	e.S.Push()
 	e.S.Assert(neg)
 	for _, v := range ints {
 		cur := int64(m[v.Name])
 		if cur <= 0 {
-			e.S.Assert(term.Eq(v, term.IntConst(cur)))
+			e.S.Assert(eq(v, cur))
 			continue
 		}
 		lo, hi := int64(0), cur
 		for lo < hi {
 			mid := lo + (hi-lo)/2
 			e.S.Push()
-			e.S.Assert(term.ILe(v, term.IntConst(mid)))
-			e.S.Assert(term.ILe(term.IntConst(0), v))
+			e.S.Assert(le(v, mid))
 			r := e.S.Check()
 			if r == solver.Sat {
 				m2 := e.S.Model(e.res.vars)
@@ -285,7 +304,7 @@ func (e *Engine) minimizeInts(neg *term.T, m map[string]uint64) map[string]uint6
 			}
 			e.S.Pop()
 		}
-		e.S.Assert(term.Eq(v, term.IntConst(hi)))
+		e.S.Assert(eq(v, hi))
 	}
 	e.S.Pop()
 	return m
@@ -416,7 +435,7 @@ func (e *Engine) runPath(fn *ssa.Function, prefix []uint64, base Options) {
 	if len(e.res.Witnesses) < 2 && len(e.res.vars) > 0 {
 		if e.S.Check() == solver.Sat {
 			// lengths of abstract buffers are minimised so that the native run can allocate them
-			e.res.Witnesses = append(e.res.Witnesses, e.minimizeInts(term.True, e.S.Model(e.res.vars)))
+			e.res.Witnesses = append(e.res.Witnesses, e.minimizeVars(term.True, e.S.Model(e.res.vars), e.opt.MinimizeWords))
 		}
 	}
 }
